@@ -57,6 +57,6 @@ build() { # $1 = output name, rest = extra flags
 
 build "vcheck$sfx"
 case "$prop" in
-  C18|all|race) build "vcheck-race$sfx" -race ;;
+  C18|C20|all|race) build "vcheck-race$sfx" -race ;;
 esac
 if [ "${VERIF_ASAN:-0}" = 1 ]; then build "vcheck-asan$sfx" -asan; fi
